@@ -23,7 +23,7 @@ From Lal Require Import Common.LBytes Common.Res
   Codec.CodecNalFraming Codec.CodecNalFramingProofs Codec.CodecAvcSeqHeader Codec.CodecHevcSeqHeader Codec.CodecAac
   Remux.RemuxAv2Rtmp Remux.RemuxAvQueue Remux.RemuxAv2RtmpProofs Remux.RemuxAvQueueProofs Remux.RemuxTsProofs
   Remux.RemuxRtspIngestProofs Remux.RemuxRtspIngest Remux.RemuxUnpackSimProofs Remux.RemuxRtspSessProofs Remux.RemuxRtspTwoTrackProofs.
-From Lal Require Net.NetPs Remux.RemuxPsIngestProofs Remux.RemuxPsPesProofs Remux.RemuxPsIngest.
+From Lal Require Net.NetPs Remux.RemuxPsIngestProofs Remux.RemuxPsPesProofs Remux.RemuxPsStreamProofs Remux.RemuxPsIngest.
 From Lal Require Rtp.RtpPacker Rtp.RtpUnpacker Rtp.RtpReorder Rtp.RtpFrames Rtp.RtpReorderAbs Rtp.RtpStreamProofs
   Rtp.RtpRoundtripProofs Net.NetUnpack Codec.CodecAvcSeqHeaderProofs Codec.CodecHevcSeqHeaderProofs.
 Open Scope N_scope.
@@ -418,11 +418,10 @@ Print Assumptions c07_ps_frame_nals.
    iterateNaluByStartCode exactly once, in order, stamped with its own PTS; the
    last frame stays buffered (lal flushes a frame only when the next one
    starts - also at the end of a stream).
-   PARTIAL (what is not covered by a theorem): pack / system headers and the
-   program stream map between the PES packets, audio PES packets interleaved
-   with video ones, RTP boundaries that fall inside a PES packet, streams
-   without any PTS (rtp-timestamp mode) - all modelled in Net/NetPs.v and
-   compared on the python muxer's packings (c07.ps, c07.e2e_ps). *)
+   c07_ps_stream below generalises this to whole streams (headers, program stream
+   map, audio, arbitrary RTP cuts).  Not covered by a theorem: streams without any
+   PTS (rtp-timestamp mode) and the reorder list in front of FeedRtpBody - modelled
+   in Net/NetPs.v and compared on the python muxer's packings (c07.ps, c07.e2e_ps). *)
 Theorem c07_ps_frames : forall vpt l st rtpts acc fuel cur,
   Forall RemuxPsPesProofs.pes_ok l -> RemuxPsPesProofs.none_ok (fst cur) l ->
   NetPs.ps_vpt st = vpt -> NetPs.ps_pre_vpts st = fst cur -> NetPs.ps_vbuf st = snd cur ->
@@ -434,6 +433,45 @@ Theorem c07_ps_frames : forall vpt l st rtpts acc fuel cur,
               NetPs.ps_vbuf st' = snd (snd (RemuxPsPesProofs.regroup cur l)) /\ NetPs.ps_wait_sps st' = w.
 Proof. exact RemuxPsPesProofs.video_pes_run. Qed.
 Print Assumptions c07_ps_frames.
+
+(* THE WHOLE PROGRAM STREAM, cut anywhere.  A stream is a list of elements of a
+   reference muxer (RemuxPsStreamProofs.elem: pack header with 0..7 stuffing bytes,
+   system header and the other length-prefixed packets lal skips, program stream
+   map with any elementary stream entries, video / audio PES packets with or
+   without PTS, program end code).  Its bytes reach FeedRtpBody cut into RTP bodies
+   at ARBITRARY positions (inside start codes, length fields, headers, stuffing,
+   payloads), each body with its own rtp timestamp.  Provided the element-by-element
+   semantics [arun] succeeds (every frame's iterateNaluByStartCode returns, and a
+   PES packet without PTS only continues a frame that has one), the unpacker ends
+   with an empty buffer in the state [arun] computes and has called back with
+   exactly the events [arun] lists - the same for every way of cutting.  With
+   c07_ps_frame_nals for what each video frame yields and (3) for the remuxer this is
+   the GB28181 path from the wire to the RTMP messages; the last frame of each track
+   stays buffered (known finding C07-KF-PS-LAST-FRAME). *)
+Theorem c07_ps_stream : forall chunks els st k' evs,
+  Forall RemuxPsStreamProofs.elem_ok els -> RemuxPsStreamProofs.proper_prefix (NetPs.ps_buf st) els ->
+  NetPs.ps_buf st ++ concat (map fst chunks) = concat (map RemuxPsStreamProofs.ebytes els) ->
+  RemuxPsStreamProofs.arun (RemuxPsStreamProofs.core_of st) els = Ok (k', evs) ->
+  exists st', RemuxPsStreamProofs.feed_chunks st chunks = Ok (st', evs) /\ NetPs.ps_buf st' = [] /\
+              RemuxPsStreamProofs.core_of st' = k' /\ RemuxPsStreamProofs.same_queue st st'.
+Proof. exact RemuxPsStreamProofs.chunked_stream. Qed.
+Print Assumptions c07_ps_stream.
+
+(* the two facts it rests on: a complete element at the head of the buffer is consumed in one
+   iteration with the effect [astep] describes, whatever follows it; a proper prefix of an element
+   makes FeedRtpBody wait without touching anything (this is what the pack-header fix 7d679c8 restored) *)
+Theorem c07_ps_element_step : forall e st rest rtpts acc f k' evs,
+  RemuxPsStreamProofs.elem_ok e -> NetPs.ps_buf st = RemuxPsStreamProofs.ebytes e ++ rest ->
+  RemuxPsStreamProofs.astep (RemuxPsStreamProofs.core_of st) e = Ok (k', evs) ->
+  RemuxPsStreamProofs.stepped f st rtpts acc rest k' evs.
+Proof. exact RemuxPsStreamProofs.step_elem. Qed.
+Print Assumptions c07_ps_element_step.
+
+Theorem c07_ps_prefix_waits : forall e st P Q rtpts acc f,
+  RemuxPsStreamProofs.elem_ok e -> P ++ Q = RemuxPsStreamProofs.ebytes e -> Q <> [] -> NetPs.ps_buf st = P ->
+  NetPs.feed_body_loop true (S f) st rtpts acc = Ok (false, st, acc).
+Proof. exact RemuxPsStreamProofs.prefix_waits. Qed.
+Print Assumptions c07_ps_prefix_waits.
 
 (* ======================================================================== *)
 (* (6) customize pub API: the same remuxer, nothing in between; after Dispose
@@ -477,6 +515,38 @@ Example c07_nonvacuous :
     framed_as rs_new ex_frame [ex_aud; ex_sps; ex_pps; ex_idr] /\
     frame_msg false 40 [ex_aud; ex_sps; ex_pps; ex_idr] = [RAv false 40 (23 :: 1 :: 0 :: 0 :: 0 :: join_nalu_avcc [ex_idr])].
 Proof. vm_compute. split; [reflexivity|]. split; [reflexivity|]. split; reflexivity. Qed.
+
+(* a program stream: pack header with 2 stuffing bytes, system header, program stream map (H.264 on e0,
+   AAC on c0), a video frame (PTS 9000) in two PES packets - SPS, PPS, IDR slice -, an audio frame, the next
+   video frame (PTS 12600), the next audio frame, end code; cut into bodies of 1, 16, 3, 40 and the remaining
+   bytes: the first video frame comes out as three NAL units stamped 100 ms, the first audio frame 100 ms *)
+Definition ex_ps_els : list RemuxPsStreamProofs.elem :=
+  [RemuxPsStreamProofs.EPack [68; 0; 4; 0; 4; 1; 1; 137; 195] 31 [255; 255];
+   RemuxPsStreamProofs.EOther 187 [128; 4; 225; 127];
+   RemuxPsStreamProofs.EPsm 224 255 [] [(27, 224, []); (15, 192, [1; 2])] [69; 189; 220; 244];
+   RemuxPsStreamProofs.EPes true (Some 9000) ([0; 0; 0; 1; 103; 66; 0; 30] ++ [0; 0; 0; 1; 104; 206]);
+   RemuxPsStreamProofs.EPes true None [0; 0; 0; 1; 101; 136; 128];
+   RemuxPsStreamProofs.EPes false (Some 9000) [255; 241; 80; 128; 1; 63; 252; 33; 16];
+   RemuxPsStreamProofs.EPes true (Some 12600) [0; 0; 0; 1; 65; 154; 2];
+   RemuxPsStreamProofs.EPes false (Some 11089) [255; 241; 80; 128; 1; 63; 252; 33; 17];
+   RemuxPsStreamProofs.EEnd].
+Definition ex_ps_bytes : bytes := concat (map RemuxPsStreamProofs.ebytes ex_ps_els).
+Definition ex_ps_chunks : list (bytes * N) :=
+  [(firstn 1 ex_ps_bytes, 9000); (firstn 16 (skipn 1 ex_ps_bytes), 9000); (firstn 3 (skipn 17 ex_ps_bytes), 9000);
+   (firstn 40 (skipn 20 ex_ps_bytes), 9000); (skipn 60 ex_ps_bytes, 12600)].
+Example c07_ps_stream_nonvacuous :
+  forallb (fun e => match e with
+                    | RemuxPsStreamProofs.EPack f _ s => (lenN f =? 9) && (lenN s <? 8)
+                    | RemuxPsStreamProofs.EOther c b => RemuxPsStreamProofs.other_code c && (lenN b <? 65536)
+                    | _ => true end) ex_ps_els = true /\
+  concat (map fst ex_ps_chunks) = ex_ps_bytes /\
+  (exists k', RemuxPsStreamProofs.arun (RemuxPsStreamProofs.core_of NetPs.ps_init) ex_ps_els
+     = Ok (k', [NetPs.mk_psev 96 100 100 [0; 0; 0; 1; 103; 66; 0; 30]; NetPs.mk_psev 96 100 100 [0; 0; 0; 1; 104; 206];
+                NetPs.mk_psev 96 100 100 [0; 0; 0; 1; 101; 136; 128]; NetPs.mk_psev 97 100 100 [255; 241; 80; 128; 1; 63; 252; 33; 16]])) /\
+  (exists st', RemuxPsStreamProofs.feed_chunks NetPs.ps_init ex_ps_chunks
+     = Ok (st', [NetPs.mk_psev 96 100 100 [0; 0; 0; 1; 103; 66; 0; 30]; NetPs.mk_psev 96 100 100 [0; 0; 0; 1; 104; 206];
+                 NetPs.mk_psev 96 100 100 [0; 0; 0; 1; 101; 136; 128]; NetPs.mk_psev 97 100 100 [255; 241; 80; 128; 1; 63; 252; 33; 16]])).
+Proof. split; [vm_compute; reflexivity|]. split; [vm_compute; reflexivity|]. split; eexists; vm_compute; reflexivity. Qed.
 
 (* the interleave queue on A(1000) V(500) A(1020) V(540): audio 0, video 0, audio 20 out, video 40 still queued *)
 Example c07_queue_nonvacuous :
